@@ -13,17 +13,24 @@ DESIGN_REF = "DESIGN.md §2 C08, Appendix A.1"
 TECHNIQUE = ("Lean 4 theorems over an executable transcription of the Edmonds-Karp code (adjacency lists, 0/1 flow "
              "matrix, BFS with colour/predecessor/distance arrays and FIFO queue, residual network rebuilt per round); "
              "differential correspondence at function granularity (re-indexed graph, every residual network, every BFS "
-             "predecessor table, every augmenting path, final value) against the real functions; monitor = own "
-             "Kuhn/brute-force maximum matching")
-LEVEL_TEXT = ("servers_of_happiness(m) = maxMatchingBrute(rel m) (maximum over all edge subsets injective in both coordinates), "
-              "proved in Lean for every finite relation and every dict/set iteration order (soundness, no augmenting path at "
-              "exit, optimality by a directly proved Koenig cover argument, BFS soundness/completeness, fuel sufficiency); "
-              "model tied to the code by exact traces of the loop (flow network, every residual network, BFS table, path, value)")
-LEVEL_NOTE = ("Lean kernel + standard axioms; model hand-written, tied by correspondence; the theorem takes the "
+             "predecessor table, every augmenting path, final value) against the real functions, plus shares_by_server, "
+             "merge_servers, the uploader's happiness test through a real PeerSelector (effectiveHappiness), and the Lean "
+             "specification maxMatchingBrute against the reference matcher; fixed corpus first (one input per seeded change "
+             "C08-a..e), VERIF_CORPUS_ONLY=1 runs only it; monitor = own Kuhn/brute-force maximum matching, order independence")
+LEVEL_TEXT = ("soh_eq_maxMatching: servers_of_happiness(m) = maxMatchingBrute(rel m) (maximum over all edge subsets injective in both "
+              "coordinates), proved in Lean for every finite relation and every dict/set iteration order (soh_is_maxMatchingSize, "
+              "soh_order_independent, soh_of_servermap, loop_exit_no_augmenting_path, bfs_sound_complete: soundness, no augmenting "
+              "path at exit, optimality by a directly proved Koenig cover argument, BFS soundness/completeness, fuel sufficiency); "
+              "callers: shares_by_server_converse, merge_servers_relation, soh_of_merged, upload_effective_happiness (the uploader's "
+              "per-round happiness test is the maximum matching number of existing shares and allocated buckets); no _partial "
+              "theorem. Not covered: how immutable/filenode.py and mutable/checker.py build the maps they pass (the value of any "
+              "map is covered). Model tied to the code by exact traces of the loop (flow network, every residual network, BFS "
+              "table, path, value)")
+LEVEL_NOTE = ("Lean kernel + standard axioms; model hand-written, tied by correspondence; the theorems take the "
               "iteration order of every dict/set as a universally quantified input (lists in any order)")
 RULE = ("a case is one call of servers_of_happiness (or of one helper: bfs / augmenting_path_for / residual_network / "
-        "_flow_network_for / shares_by_server / merge_servers) on a generated input; distinct = distinct "
-        "(function, input incl. insertion order); non-trivial = the relation has at least one edge "
+        "_flow_network_for / shares_by_server / merge_servers / the uploader's happiness test) on a generated input; distinct = "
+        "distinct (function, input incl. insertion order); non-trivial = the relation has at least one edge "
         "(helpers: the graph has at least one edge)")
 TRUSTED = [
     "lean/Tahoe/Happiness/{Graph,Flow}.lean are hand transcriptions of util/happinessutil.py and the flow code of immutable/happiness_upload.py",
@@ -32,6 +39,8 @@ TRUSTED = [
     "shares_by_server result into the model, and the theorem holds for every order)",
     "the harness observes the real loop by wrapping the module globals shares_by_server, _flow_network_for, "
     "residual_network, augmenting_path_for (happinessutil) and bfs (happiness_upload) at run time",
+    "effectiveHappiness transcribes the expression servers_of_happiness(merge_servers(PeerSelector."
+    "get_sharemap_of_preexisting_shares(), use_trackers)) of upload.py; trackers are stand-ins with get_serverid() and buckets",
 ]
 ASSUMPTIONS = ["server ids and share numbers are hashable values with a total equality; the model uses natural numbers "
                "(byte-string ids are relabelled injectively before they are sent to the model)",
